@@ -418,7 +418,8 @@ def _a_series_any(rng, s):
     return _a_series(rng, s)
 
 
-REL_KINDS = ('same ends, other spacing', 'one interior entry moved', 'interior permuted', 'every entry 3e-7 away', 'repeat')
+REL_KINDS = ('same ends, other spacing', 'one interior entry moved', 'interior permuted', 'every entry 3e-7 away', 'repeat',
+             'strict subset (first entry dropped)', 'strict subset (every second entry)', 'reversed order', 'subset in reversed order')
 
 
 def related_array(rng, cur, kind=None):
